@@ -3,6 +3,7 @@ package rt
 // C04 — FContext headers survive the wire unchanged in the documented v0 layout.
 
 import (
+	"time"
 	"bytes"
 	"context"
 	"encoding/binary"
@@ -30,6 +31,16 @@ type c04Case struct {
 	OpID    uint64 `json:"opid"`
 	Big     bool   `json:"big"`   // one value blown up to ~70 KB
 	Chunk   int    `json:"chunk"` // the stream hands out at most this many bytes per Read (0 = everything)
+	// Rewrites: the same FContext is changed and written again (a context is reused for retries and
+	// publishes): after every step the bytes on the wire must be the context's current headers
+	Rewrites []c04Rewrite `json:"rewrites,omitempty"`
+}
+
+type c04Rewrite struct {
+	Op string `json:"op"` // timeout | add | addresp | none
+	K  []byte `json:"k,omitempty"`
+	V  []byte `json:"v,omitempty"`
+	Ms int64  `json:"ms,omitempty"`
 }
 
 var reserved = map[string]bool{"_cid": true, "_opid": true, "_timeout": true}
@@ -95,6 +106,21 @@ func genC04(utf8Only bool) func(t *rapid.T) c04Case {
 		c.OpID = rapid.Uint64().Draw(t, "opid")
 		c.Big = rapid.IntRange(0, 60).Draw(t, "big") == 0 && len(c.Pairs) > 0
 		c.Chunk = rapid.SampledFrom([]int{0, 0, 1, 2, 3, 7, 64, 4096}).Draw(t, "chunk")
+		for i, n := 0, rapid.IntRange(0, 4).Draw(t, "nrewrites"); i < n; i++ {
+			rw := c04Rewrite{Op: rapid.SampledFrom([]string{"timeout", "timeout", "add", "addresp", "none"}).Draw(t, "rewrite")}
+			switch rw.Op {
+			case "timeout":
+				rw.Ms = rapid.SampledFrom([]int64{1, 2, 250, 5000, 5001, 12345, 3600000}).Draw(t, "ms")
+			case "add", "addresp":
+				if len(c.Pairs) > 0 && rapid.Bool().Draw(t, "existing") {
+					rw.K = c.Pairs[rapid.IntRange(0, len(c.Pairs)-1).Draw(t, "which")].K
+				} else {
+					rw.K = []byte(rapid.StringMatching(`[a-z]{1,8}`).Draw(t, "rk"))
+				}
+				rw.V = []byte(rapid.StringMatching(`[a-z0-9]{0,12}`).Draw(t, "rv"))
+			}
+			c.Rewrites = append(c.Rewrites, rw)
+		}
 		return c
 	}
 }
@@ -125,6 +151,10 @@ func (c c04Case) pairs() []KV {
 func classifyC04(c c04Case) ev.Class {
 	nt := len(c.Pairs) >= 2 || len(c.Payload) > 0
 	labels := []string{fmt.Sprintf("n=%s", bucket(len(c.Pairs)))}
+	for _, rw := range c.Rewrites {
+		labels = append(labels, "rewritten-after-"+rw.Op)
+		nt = true
+	}
 	for _, p := range c.Pairs {
 		if len(p.K) == 0 {
 			labels = append(labels, "empty-name")
@@ -281,6 +311,69 @@ func checkC04Go(c c04Case) *ev.Failure {
 		}
 	}
 
+	// (1b) one context written repeatedly, changed in between.
+	if len(c.Rewrites) > 0 {
+		ctx := frugal.NewFContext(c.Cid)
+		for _, p := range pairs {
+			ctx.AddRequestHeader(string(p.K), string(p.V))
+		}
+		writeBoth := func(step string) *ev.Failure {
+			for _, side := range []string{"request", "response"} {
+				buf := thrift.NewTMemoryBuffer()
+				prot := pf.GetProtocol(buf)
+				var err error
+				var expect map[string]string
+				if side == "request" {
+					err = prot.WriteRequestHeader(ctx)
+					expect = ctx.RequestHeaders()
+				} else {
+					err = prot.WriteResponseHeader(ctx)
+					expect = ctx.ResponseHeaders()
+				}
+				if err != nil {
+					return ev.Failf("rewrite-error", "%s after %s: %v", side, step, err)
+				}
+				got, _, derr := refDecodeHeaders(buf.Bytes())
+				if derr != nil {
+					return ev.Failf("rewrite-layout", "%s after %s: reference decoder rejects: %v", side, step, derr)
+				}
+				if len(got) != len(expect) || !mapsEqual(pairsToMap(got), expect) {
+					return ev.Failf("rewrite-stale", "%s headers written after %s are not the context's: wire %v, context %v", side, step, pairsToMap(got), expect)
+				}
+			}
+			return nil
+		}
+		if f := writeBoth("the first write"); f != nil {
+			return f
+		}
+		for i, rw := range c.Rewrites {
+			step := fmt.Sprintf("step %d (%s)", i, rw.Op)
+			switch rw.Op {
+			case "timeout":
+				ctx.SetTimeout(time.Duration(rw.Ms) * time.Millisecond)
+				if ctx.Timeout() != time.Duration(rw.Ms)*time.Millisecond {
+					return ev.Failf("rewrite-timeout", "Timeout() = %v after SetTimeout(%d ms)", ctx.Timeout(), rw.Ms)
+				}
+			case "add":
+				if !reserved[string(rw.K)] {
+					ctx.AddRequestHeader(string(rw.K), string(rw.V))
+				}
+			case "addresp":
+				if !reserved[string(rw.K)] {
+					ctx.AddResponseHeader(string(rw.K), string(rw.V))
+				}
+			}
+			if f := writeBoth(step); f != nil {
+				return f
+			}
+			if rw.Op == "timeout" {
+				if v, _ := ctx.RequestHeader("_timeout"); v != strconv.FormatInt(rw.Ms, 10) {
+					return ev.Failf("rewrite-timeout-header", "_timeout header %q after SetTimeout(%d ms)", v, rw.Ms)
+				}
+			}
+		}
+	}
+
 	// (2) stream read of reference-encoded bytes.
 	opid := strconv.FormatUint(c.OpID, 10)
 	wirePairs := append([]KV{}, pairs...)
@@ -362,6 +455,34 @@ func checkC04Go(c c04Case) *ev.Failure {
 	}
 	frame := refFrame(stream)
 	var f *ev.Failure
+	// (3b) a frame whose header block is empty (a response written for a context without headers)
+	if p := catch(func() {
+		empty := append(refEncodeHeaders(nil), c.Payload...)
+		h, err := frugal.VerifGetHeadersFromFrame(empty)
+		if err != nil || len(h) != 0 {
+			f = ev.Failf("frame-headers-empty-block", "getHeadersFromFrame on an empty header block: %v, %v", h, err)
+			return
+		}
+		extra := pairsToMap(c.Extra)
+		nf, err := frugal.VerifAddHeadersToFrame(refFrame(empty), extra)
+		if err != nil {
+			f = ev.Failf("add-headers-error", "addHeadersToFrame on a frame with an empty header block: %v", err)
+			return
+		}
+		got, n, derr := refDecodeHeaders(nf[4:])
+		if derr != nil || len(got) != len(extra) || !mapsEqual(pairsToMap(got), extra) {
+			f = ev.Failf("add-headers-content", "headers added to an empty block: %v (%v), want %v", pairsToMap(got), derr, extra)
+			return
+		}
+		if !bytes.Equal(nf[4+n:], c.Payload) {
+			f = ev.Failf("add-headers-payload", "payload changed by addHeadersToFrame (empty block)")
+		}
+	}); p != "" {
+		return ev.Failf("add-headers-panic", "empty header block: %s", p)
+	}
+	if f != nil {
+		return f
+	}
 	// unmarshalFrame (unexported, used by no production code) follows an older
 	// convention, pinned by TestAddHeadersToFrame, in which the payload carries
 	// its own 4-byte length prefix; it is exercised under that convention.
